@@ -15,6 +15,51 @@ func funcID(name string) *Term {
 	return IntC(int64(2000000) + int64(h.Sum32()%1000000000))
 }
 
+// monitorCall implements the monitor rule (DESIGN 2.6) for a call
+// owner.mu.Lock() / owner.mu.Unlock() when the unit declares
+// `monitor owner invariant I`: Lock forgets everything about the owner's
+// fields and assumes I; Unlock must re-establish I. With mutual exclusion of
+// sync.Mutex (trusted) I then holds whenever the mutex is free, under every
+// schedule.
+func (x *Exec) monitorCall(e *ast.CallExpr, st *State, lock bool) bool {
+	if x.c == nil || len(x.c.Monitors) == 0 {
+		return false
+	}
+	sel, ok := unparen(e.Fun).(*ast.SelectorExpr)
+	if !ok {
+		return false
+	}
+	musel, ok := unparen(sel.X).(*ast.SelectorExpr)
+	if !ok {
+		return false
+	}
+	owner := types.ExprString(musel.X)
+	matched := false
+	for _, m := range x.c.Monitors {
+		if m.Pattern != owner {
+			continue
+		}
+		if !matched && lock {
+			ov := x.expr(musel.X, st)
+			x.havocObject(st, x.info.TypeOf(musel.X), ov)
+		}
+		matched = true
+		old := x.curPos
+		x.curPos = e.Pos()
+		g := x.cbool(m.C.Expr, x.cctx(st, m.C))
+		x.curPos = old
+		if lock {
+			st.add(g)
+		} else {
+			x.obligeClause(st, "mon", x.site("mon@Unlock", e)+"."+m.C.Label, m.C, g, e.Pos())
+		}
+	}
+	if matched {
+		x.assumes["sync.Mutex provides mutual exclusion: the monitor invariant of "+owner+" holds whenever its mutex is free"] = true
+	}
+	return matched
+}
+
 // checkSinks: `sink <callee> requires <expr>` clauses of the unit under
 // verification are obligations at every call of that callee, evaluated in
 // the caller's scope (locals visible at the call).
